@@ -270,6 +270,48 @@ def census(res, ctx, rng):
     res.count('census_codes_done')
 
 
+NAMING = H.NAMING
+
+
+def naming_pairs(res, ctx, rng):
+    """Records of ANOTHER thread that name this thread or its process in their argument words (scheduler records, the
+    kernel's new-thread / terminate / exec announcements, sampler thread data): every ordered pair of them, placed inside
+    the thread's open call.  They may re-map which process the thread belongs to (by design); the thread's own calls
+    still pair and read the same."""
+    tid, pid = 0x111, 77
+    a_prog = H.path_syscall(rng, 'BSC_open', 1, error=0, interleave_unrelated=False) + \
+        H.syscall('BSC_read', (3, 0x1000, 64, 0), (0, 64, 0, 0))
+    base, _, exc = run_stream(H.on_thread(tid, a_prog))
+    if exc is not None or not base.get(tid):
+        res.inconclusive.append(f'naming-pairs baseline unusable: {exc!r}')
+        return
+
+    def words(name, k):
+        return H.naming_words(rng, name, tid, pid, k)
+    n = 0
+    for x in NAMING:
+        for y in NAMING:
+            for k in (0, 1):
+                n += 1
+                if not ctx.mine(n):
+                    continue
+                foreign = [(0x222, H.A(x, H.NONE, words(x, k))), (0x222, H.A(y, H.NONE, words(y, k)))]
+                items = H.on_thread(tid, a_prog[:1]) + foreign + H.on_thread(tid, a_prog[1:])
+                per, _, exc = run_stream(items)
+                res.count('naming_pair_schedules')
+                res.case(('naming-pair', x, y, k))
+                case = {'programs': programs_case([a_prog, [a for _, a in foreign]], [tid, 0x222]), 'position': 1}
+                if exc is not None:
+                    res.violation(f'c05-raises-{core.exc_name(exc)}', f'{x} then {y} of another thread naming thread {hex(tid)} / '
+                                  f'pid {pid} inside its open call: {exc!r}', case)
+                    return
+                if per.get(tid, []) != base[tid]:
+                    res.violation('c05-per-thread-traces', f'{x} then {y} of another thread, naming thread {hex(tid)} / pid '
+                                  f'{pid} in their argument words, inside its open call: the thread reports '
+                                  f'{len(per.get(tid, []))} traces, alone {len(base[tid])}', case)
+                    return
+
+
 def programs_case(programs, tids):
     return [{'tid': tid, 'events': [[c, q, (p if isinstance(p, bytes) else list(p))] for c, q, p in prog]}
             for prog, tid in zip(programs, tids)]
@@ -282,6 +324,7 @@ def run(ctx):
         programs, tids = gen_programs(rng, pairs_everywhere=(i % 2 == 0))
         check_set(res, ctx, rng, programs, tids)
     census(res, ctx, rng)
+    naming_pairs(res, ctx, rng)
     # many threads at once (tables that are capped, flushed in batches or keyed by a hash show only then)
     for _ in range(ctx.pick(3, 40)):
         n = rng.choice((17, 18, 33, 40, 70))
@@ -333,6 +376,7 @@ def run(ctx):
     res.require('many_thread_sets', 1)
     res.require('schedules_through_a_dump', 20)
     res.require('census_schedules', 6000)
+    res.require('naming_pair_schedules', 200)
     return res
 
 
